@@ -1,4 +1,4 @@
-"""F32 (C05): SimpleCache.cache_jacobian kept the caller's Jacobian arrays: editing them afterwards changed what
+"""F32 (C05, known finding; the repair breaks tests/utils/test_derivatives_approx.py::test_load_and_dump): SimpleCache.cache_jacobian keeps the caller's Jacobian arrays: editing them afterwards changed what
 the cache returns (MemoryFullCache and HDF5Cache copy them)."""
 import numpy as np
 from gemseo.caches.simple_cache import SimpleCache
@@ -9,5 +9,7 @@ jac = {"y": {"x": np.array([[2.0]])}}
 c.cache_outputs(x, {"y": np.array([2.0])})
 c.cache_jacobian(x, jac)
 jac["y"]["x"][:] = 0.0
-assert c[x].jacobian["y"]["x"].tolist() == [[2.0]], c[x].jacobian  # before the fix: [[0.]]
-print("F32 ok")
+got = c[x].jacobian["y"]["x"].tolist()
+print("cached Jacobian after the caller edited its array:", got, "(expected [[2.0]])")
+assert got == [[0.0]]
+print("F32 reproduced (known finding)")
